@@ -332,3 +332,37 @@ def ci_rebase_merge_of_ai_commit_followed_by_human_commit():
         return _final(s)
     finally:
         s.destroy()
+
+
+def stash_pop_after_partial_commit_keeps_pending():
+    """D68: S1's lines in f.txt are stashed; S2 adds a line to g.txt and creates h.txt, only g.txt is committed (h.txt's lines stay
+    pending in INITIAL); `git stash pop` replaced INITIAL with the stash's attributions => h.txt's lines were committed as human."""
+    s = _mk("d68", files=2)
+    try:
+        f0 = [s.line("human") for _ in range(5)]; g0 = [s.line("human") for _ in range(4)]
+        s.human_write("f.txt", f0); s.human_write("g.txt", g0); s.commit_all("init")
+        s.ai_write("S1", "f.txt", f0[:2] + [s.line("S1"), s.line("S1")] + f0[2:])
+        s.g("stash", "push", "-q")
+        s.ai_write("S2", "g.txt", g0[:2] + [s.line("S2")] + g0[2:])
+        s.ai_write("S2", "h.txt", [s.line("S2"), s.line("S2")])
+        s.g("add", "--", "g.txt"); s.g("commit", "-q", "-m", "only g")
+        s.g("stash", "pop", "-q")
+        return _final(s)
+    finally:
+        s.destroy()
+
+
+def checkout_m_to_another_commit_carrying_a_new_agent_file():
+    """D69: an agent creates new.txt (two lines, untracked); `git branch other HEAD~1; git checkout -m other` carries it to another
+    commit; commit => the agent's lines are human (the working log is not migrated for files that exist only in the work tree)."""
+    s = _mk("d69", files=1)
+    try:
+        f0 = [s.line("human") for _ in range(4)]
+        s.human_write("f.txt", f0); s.commit_all("init")
+        s.human_write("f.txt", f0 + [s.line("human")]); s.commit_all("second")
+        s.ai_write("S2", "new.txt", [s.line("S2"), s.line("S2")])
+        s.g("branch", "other", "HEAD~1")
+        s.g("checkout", "-q", "-m", "other")
+        return _final(s)
+    finally:
+        s.destroy()
